@@ -2,7 +2,7 @@
    Output: OK <const> | NOTCONST | PANIC   followed by   ; <the same for the reference evaluator> *)
 From Coq Require Import List ZArith NArith Bool String Ascii.
 From Flocq Require Import Core IEEE754.BinarySingleNaN IEEE754.Binary IEEE754.Bits.
-From RV Require Import Wire EvalSem Evaluator GenEvaluator.
+From RV Require Import Wire EvalSem Evaluator GenEvaluator EnumVals.
 Import ListNotations.
 Local Open Scope string_scope.
 
@@ -80,8 +80,21 @@ Fixpoint show_const (c : const) : string :=
 Definition show_res (r : res) : string :=
   match r with ROk c => "OK " ++ show_const c | RNotConst => "NOTCONST" | RPanic => "PANIC" end.
 
+(* enum line: <debug> N <n> <first const>   ->   ENUM <kind> <values>  |  ENUM-NO-TYPE  |  PANIC *)
+Definition show_enum (r : enum_res) : string :=
+  match r with
+  | EnumOk k vs => unwords ("ENUM" :: kind_name k :: map show_Z vs)
+  | EnumNoType => "ENUM-NO-TYPE"
+  | EnumPanic => "PANIC"
+  end.
+
 Definition run_top (line : string) : string :=
   match words (hd "" (split "#" line)) with
+  | d :: "N" :: n :: w =>
+      match parse_N n, parse_const (S (List.length w)) w with
+      | Some n, Some (c, []) => show_enum (enum_impl c (N.to_nat n)) ++ " ; " ++ show_enum (enum_ref c (N.to_nat n))
+      | _, _ => "PARSE-ERROR"
+      end
   | d :: w =>
       match parse_bool d, parse_expr (S (List.length w)) w with
       | Some debug, Some (e, []) =>
